@@ -10,6 +10,51 @@ import tempfile
 import numpy as np
 from harness import common as C
 
+# ----------------------------------------------------------------------------- source tie (harness/translate.py)
+# Regenerated on every run into lean/TaurexModel/Gen/SrcC12.lean; lean/Props/C12Src.lean proves each definition equal to
+# the hand-written model of TaurexModel/Temperature.lean.  dialect='arr': the idioms of harness/translate_arr.py.
+_TDIR = 'taurex/data/profiles/temperature/'
+_GATTRS = {'self.T_irr': ('T_irr', 's'), 'self.kappa_ir': ('kappa_ir', 's'), 'self.kappa_v1': ('kappa_v1', 's'),
+           'self.kappa_v2': ('kappa_v2', 's'), 'self.alpha': ('alpha', 's'), 'self.T_int': ('T_int', 's'),
+           'self.planet.gravity': ('planet_gravity', 's'), 'self.pressure_profile': ('pressure', 'elem')}
+SRC_SPECS = [
+    dict(module=_TDIR + 'isothermal.py', cls='Isothermal', func='profile', lean='isothermal_profile', dialect='arr',
+         params={}, returns='arr', attrs={'self.nlayers': ('nlayers', 'nat'), 'self._iso_temp': ('iso_temp', 's')}),
+    # Rodgers2000: exponential covariance and the row-normalised correlation; `weights.dot(T)` is the external `dot`
+    dict(module=_TDIR + 'rodgers.py', cls='Rodgers2000', func='gen_covariance', callname='self.gen_covariance',
+         lean='rodgers_gen_covariance', dialect='arr', params={}, returns='arr2',
+         attrs={'self._tp_corr_length': ('corr_length', 's'), 'self.pressure_profile': ('pressure', 'arr')}),
+    dict(module=_TDIR + 'rodgers.py', cls='Rodgers2000', func='correlate_temp', callname='self.correlate_temp',
+         lean='rodgers_correlate_temp', dialect='arr', params=dict(cov_mat='arr2'), returns='arr', nrows={'cov_mat': 'n'},
+         attrs={'self._T_layers': ('T_layers', 'arr')}, lens={'self._T_layers': 'nT'},
+         externals={'dot': ('dot', 2)}),
+    dict(module=_TDIR + 'rodgers.py', cls='Rodgers2000', func='profile', lean='rodgers_profile', dialect='arr',
+         params={}, returns='arr', attrs={'self._covariance': ('covariance', 'optarr2')}),
+    # NPoint.profile up to the node lists: (Tnodes, Pnodes) right after `Pnodes = […]` (unset / negative end pressures
+    # are taken from the pressure grid); the next statement hands them to check_profile (tied below)
+    dict(module=_TDIR + 'npoint.py', cls='NPoint', func='profile', lean='npoint_nodes', dialect='arr', params={},
+         attrs={'self._T_surface': ('T_surface', 's'), 'self._T_top': ('T_top', 's'),
+                'self._t_points': ('t_points', 'slist'), 'self._p_points': ('p_points', 'slist'),
+                'self._P_surface': ('P_surface', 'opt'), 'self._P_top': ('P_top', 'opt'),
+                'self.pressure_profile': ('pressure', 'arr')},
+         lens={'self.pressure_profile': 'nP'}, ret_kinds=['slist', 'slist'],
+         stop_at='Pnodes = [Psurface, *self._p_points, Ptop]', result=['Tnodes', 'Pnodes']),
+    # check_profile only raises: the Bool result is "InvalidTemperatureException is raised"; Ppt, Tpt are the node lists
+    dict(module=_TDIR + 'npoint.py', cls='NPoint', func='check_profile', callname='self.check_profile',
+         lean='npoint_check_profile', dialect='arr', params=dict(Ppt='arr', Tpt='arr'), lens={'Ppt': 'nP'},
+         attrs={'self._limit_slope': ('limit_slope', 's')}, returns='bool', raises=True, raise_value='true',
+         fall_value='false'),
+    # _check_values only raises: the Bool result is "InvalidModelException is raised"
+    dict(module=_TDIR + 'guillot.py', cls='Guillot2010', func='_check_values', callname='self._check_values',
+         lean='guillot_check_values', dialect='arr', params={}, attrs=_GATTRS, returns='bool', raises=True,
+         raise_value='true', fall_value='false'),
+    # profile for ONE layer (self.pressure_profile is element-wise); none = InvalidModelException;
+    # scipy.special.expn and the power `T4**0.25` are externals (parameters `expn`, `rpow`)
+    dict(module=_TDIR + 'guillot.py', cls='Guillot2010', func='profile', lean='guillot_profile', dialect='arr',
+         params={}, attrs=_GATTRS, returns='opt', raise_value='none',
+         externals={'spe.expn': ('expn', 2), '**': ('rpow', 2)}),
+]
+
 RULE = ('kinds iso/npoint/rodgers/tarray/tfile/guillot by quota; layers 2-150 (not multiples of ten favoured); real '
         'SimplePressureProfile or irregular descending ArrayPressureProfile grids; NPoint: 0-6 interior nodes, '
         'unset/negative/explicit end pressures inside and beyond the grid, nodes on grid values, tied and equal '
@@ -31,6 +76,9 @@ ASSUMPTIONS = [
     'pressure grid and pressure nodes > 0; control temperatures > 0; Rodgers correlation length != 0; smoothing '
     'window a percentage in [0, 100]; distinct pressure points for TemperatureArray',
     'rounding: model on Float vs numpy doubles compared to 1e-10 relative (Guillot: + 1e-15/min(gamma))',
+    'source tie (Props/C12Src.lean): T4 ** 0.25 = sqrt(sqrt(T4)); weights.dot(T) (BLAS, addition order unspecified) and '
+    'np.sum(cov, axis=0) are read as left-to-right sums starting from 0; the carrier order is total (x == 0.0 of the '
+    'code vs. not x<0 and not 0<x of the model differ only for NaN parameters)',
 ]
 
 KINDS = ['npoint', 'npoint', 'npoint', 'rodgers', 'tarray', 'guillot', 'npoint', 'iso', 'tfile', 'guillot',
